@@ -81,6 +81,8 @@ def make_models(m, kind, rng):
     if kind == 'asym':      # an asymmetric scale/misalignment pattern (upper triangle; a single off-diagonal element)
         return (EM(bias_sd=1e-4, noise=1e-5, scale_misal_sd=[[1e-3, 1e-3, 1e-3], [0, 1e-3, 1e-3], [0, 0, 1e-3]]),
                 EM(bias_sd=[1e-2, 0, 1e-2], noise=1e-3, scale_misal_sd=[[0, 0, 0], [0, 0, 1e-3], [0, 0, 0]]))
+    if kind == 'tiny':      # navigation-grade: biases of ~1e-9 rad/s (0.0002 deg/h) and 1e-8 m/s^2 - estimates far below any absolute tolerance
+        return (EM(bias_sd=2e-9, noise=1e-9), EM(bias_sd=[1e-8, 2e-8, 1e-8], noise=1e-8))
     if kind == 'full':
         return (EM(bias_sd=1e-4, noise=1e-5, bias_walk=1e-7, scale_misal_sd=1e-3),
                 EM(bias_sd=1e-2, noise=1e-3, bias_walk=1e-5, scale_misal_sd=1e-3))
@@ -281,6 +283,35 @@ class Flow:
         self.P = np.array(Pout, dtype=float, copy=True)
         self.x = np.array(xout, dtype=float, copy=True)
         return c
+
+    @_safe(True)
+    def on_increments(self, batch, raw):
+        """The increments handed to the integrator are the raw ones corrected by the CURRENT sensor estimates (what C14 decides
+        correct_increments to be: solve(transform, inc - bias dt)).  Judged relative to the size of the correction itself, so that a
+        correction of 1e-11 rad that is silently skipped is seen (seeded change C12_7)."""
+        if raw is None:
+            return True
+        TH, DV = ['theta_x', 'theta_y', 'theta_z'], ['dv_x', 'dv_y', 'dv_z']
+        rows = raw.loc[batch.index]
+        dt = np.asarray(rows['dt'].values, float)[:, None]
+        ok = True
+        for mdl, cols in ((self.gm, TH), (self.am, DV)):
+            r = np.asarray(rows[cols].values, float)
+            if mdl is None:
+                want = r
+            else:
+                want = np.linalg.solve(np.asarray(mdl.transform, float), (r - np.asarray(mdl.bias, float) * dt).T).T
+            got = np.asarray(batch[cols].values, float)
+            tol = 1e-9 * np.abs(want) + 1e-6 * np.abs(want - r) + 1e-300
+            if got.shape != want.shape or not (np.abs(got - want) <= tol).all():
+                ok = False
+                self.note("the increments handed to the integrator are not the raw increments corrected by the current %s estimates (deviation %.3g, correction %.3g)"
+                          % ("gyro" if cols is TH else "accelerometer", float(np.abs(got - want).max()) if got.shape == want.shape else float("nan"),
+                             float(np.abs(want - r).max())))
+        if not np.array_equal(np.asarray(batch['dt'].values, float), dt[:, 0]):
+            ok = False
+            self.note("the dt column of the corrected increments differs from the raw one")
+        return ok
 
     @_safe(0)
     def snapshot(self, t):
@@ -590,9 +621,10 @@ def run_task(m, task):
             t0 = float(self.get_time())
             fl = state.get("flow")
             psnap = fl.snapshot(t0) if fl is not None else 0
+            inc_ok = fl.on_increments(increments, state.get("raw_incs")) if fl is not None else True
             out = BaseInt.integrate(self, increments)
             state["batch"] = increments
-            line = dict(a="A", T=t0, batch=[float(x) for x in increments.index], T2=float(self.get_time()), dt=None, psnap=psnap)
+            line = dict(a="A", T=t0, batch=[float(x) for x in increments.index], T2=float(self.get_time()), dt=None, psnap=psnap, inc_ok=inc_ok)
             state["last_adv"] = line
             rec.advance(line)
             return out
@@ -731,6 +763,7 @@ def run_task(m, task):
             flow.start(pva)
             flow.names = [c for c, _ in task["meas"]]
             state["flow"] = rec.flow = flow
+            state["raw_incs"] = incs
             res = filters.run_feedback_filter(pva, 1.0, 0.1, 0.1, 1.0, incs, gm, am, meas_arg,
                                               time_step=task["step"], with_altitude=task["alt"])
         else:
@@ -875,7 +908,7 @@ def abstract_record(rec, tid):
             ev.append(dict(a="A", T=R(ln["T"]), batch=[R(x) for x in ln["batch"]], T2=R(ln["T2"]),
                            dpos=bool(ln["dt"] is not None and ln["dt"] > 0),
                            psnap=int(ln.get("psnap", 0)), pexp=int(ln.get("pexp", 0)), dt_ok=ln.get("dt_ok") is not False, dt_bit=ln.get("dt_bit") is not False,
-                           fq_ok=ln.get("fq_ok") is not False, fq_bit=ln.get("fq_bit") is not False))
+                           fq_ok=ln.get("fq_ok") is not False, fq_bit=ln.get("fq_bit") is not False, inc_ok=ln.get("inc_ok") is not False))
         else:
             ev.append(dict(a="A", dpos=bool(ln["dt"] > 0), T=R(ln["T"]) if ln.get("T") is not None else 0,
                            T2=R(ln["T2"]) if ln.get("T2") is not None else 0,
